@@ -197,7 +197,7 @@ def _alphabet() -> list[str]:
     ops += ["ad:on", "ad:off"]
     ops += ["sc:scalar", "sc:array", "sc:nanrow"]
     ops += ["evd:scalar", "evd:1d"]
-    ops += ["wr"]
+    ops += ["wr", "wr:detour"]
     ops += ["nt:A", "nt:B"]
     return ops
 
@@ -214,7 +214,7 @@ ALPHABET_A = [o for o in ALPHABET if not o.startswith("ad:")]
 ALPHABET_B = [
     "ev:inside:scalar", "ev:inside:1d", "ev:below:scalar", "ev:below:list", "ev:above:list", "ev:mixed:1d", "ev:boundary:1d",
     "evd:scalar", "evd:1d", "dv1:inside:scalar", "dv1:below:scalar", "dv2:mixedU:1d",
-    "sc:scalar", "sc:array", "sc:nanrow", "ad:on", "ad:off", "xt:left", "xt:right3", "xt:noop", "xt:nominal3", "sm:swap", "wr", "nt:A",
+    "sc:scalar", "sc:array", "sc:nanrow", "ad:on", "ad:off", "xt:left", "xt:right3", "xt:noop", "xt:nominal3", "sm:swap", "wr", "wr:detour", "nt:A",
 ]
 assert set(ALPHABET_B) <= set(ALPHABET)
 PAIRS_B = [("NONE", "NONE"), ("NONE", "CONSTANT"), ("FUNCTION", "NONE"), ("ERROR", "NONE"), ("CONSTANT", "FUNCTION"), ("ERROR", "ERROR")]
@@ -367,7 +367,9 @@ def describe(name: str, pre: dict) -> dict:
             return {"t": "sc", "x": np.array([a - 0.17, b + 0.21]), "nanrow": None}
         return {"t": "sc", "x": np.array([a - 0.17, a - 0.4, b + 0.05]), "nanrow": 1}
     if head == "wr":
-        return {"t": "wr"}
+        # wr: write and read back at once. wr:detour: write; widen the table on both sides and evaluate outside it on either side
+        # (whatever the modes make of that); THEN read the file back - the object returns to the table it wrote, by another route
+        return {"t": "wr", "detour": len(parts) > 1}
     if head == "nt":
         return {"t": "nt", "args": (0.6, 1.4, 5) if parts[1] == "A" else (-0.5, 0.5, 6)}
     raise KeyError(name)
@@ -416,6 +418,17 @@ def execute(obj, spec: dict):
                     fresh_out = snap(fresh)
                 except Exception as e:  # reported through the relation below
                     fresh_out = ("exc", type(e).__name__, str(e)[:200])
+                if spec.get("detour"):
+                    lo, hi = float(obj.interpolationRangeMin()), float(obj.interpolationRangeMax())
+                    try:
+                        obj.extendInterpolationTable(lo - 1.0, hi + 1.0, 3, 3)
+                    except Exception:  # noqa: BLE001
+                        pass
+                    for x in (lo - 2.5, hi + 2.5):
+                        try:
+                            obj(x)
+                        except Exception:  # noqa: BLE001 - ERROR mode etc.
+                            pass
                 obj.readInterpolationTable(path)
             finally:
                 if os.path.exists(path):
@@ -758,7 +771,7 @@ def step(obj, kind: str, name: str, with_check: bool = True, pre: dict | None = 
     """Execute one operation on the live object and evaluate T(pre, op, post). -> (Acc|None, pre, post)"""
     if pre is None:
         pre = snap(obj)
-    if name == "wr" and not pre["has"]:
+    if name.startswith("wr") and not pre["has"]:
         return None, pre, pre  # nothing to write: operation not enabled in this state
     spec = describe(name, pre)
     out = execute(obj, spec)
